@@ -755,6 +755,16 @@ func (sh *SessionHandler) rpcRead(s *session, log *zap.Logger) (contracts.Usage,
 		return contracts.Usage{}, fmt.Errorf("failed to read read request: %w", err)
 	}
 
+	// RPCReadCost checks Offset+Length, which wraps around for offsets close
+	// to 2^64; bound both before the sections are used to slice a sector
+	for _, sec := range req.Sections {
+		if sec.Offset > rhp2.SectorSize || sec.Length > rhp2.SectorSize-sec.Offset {
+			err := rhp2.ErrOffsetOutOfBounds
+			s.t.WriteResponseErr(err)
+			return contracts.Usage{}, fmt.Errorf("failed to validate read request: %w", err)
+		}
+	}
+
 	// validate the request sections and calculate the cost
 	costs, err := settings.RPCReadCost(req.Sections, req.MerkleProof)
 	if err != nil {
